@@ -190,9 +190,14 @@ def judge_rvint(words, box, fdt=np.float32):
     data = np.array(words, dtype=np.int64).astype(np.uint32).view(np.int32).reshape(-1, 3) if len(words) else np.zeros((0, 3), np.int32)
     N = len(data)
     rel = 2e-6 if fdt == np.float32 else 1e-12
-    for pm, vm in itertools.product(('alloc', 'skip', 'given'), repeat=2):
-        po = {'alloc': None, 'skip': False, 'given': np.full((N, 3), np.nan, dtype=fdt)}[pm]
-        vo = {'alloc': None, 'skip': False, 'given': np.full((N, 3), np.nan, dtype=fdt)}[vm]
+    for pm, vm in list(itertools.product(('alloc', 'skip', 'given'), repeat=2)) + [('strided', 'strided'), ('strided', 'alloc'), ('skip', 'strided')]:
+        # 'strided': the caller's outputs are non-contiguous views (two halves of one interleaved (N, 6) buffer, every second row of a
+        # taller array) - supplied arrays must be filled whatever their memory layout
+        inter = np.full((N, 6), np.nan, dtype=fdt)
+        tall = np.full((2 * N, 3), np.nan, dtype=fdt)
+        po = {'alloc': None, 'skip': False, 'given': np.full((N, 3), np.nan, dtype=fdt), 'strided': inter[:, :3]}[pm]
+        vo = {'alloc': None, 'skip': False, 'given': np.full((N, 3), np.nan, dtype=fdt), 'strided': tall[::2]}[vm]
+        pm, vm = pm.replace('strided', 'given'), vm.replace('strided', 'given')
         try:
             r = unpack_rvint(data, box, float_dtype=fdt, posout=po, velout=vo)
         except IndexError as ex:
